@@ -13,6 +13,22 @@ the business of the correspondence run, not of these theorems). The summary show
 All theorems are for ALL profiles of four non-negative integers (all-zero, single-category and
 near-tie profiles included). `t` is the total; shares are stated without division:
 "`u` is within `c` points of the true share `100 * p3 / t`" reads `|100 * p3 - u * t| ≤ c * t`.
+
+Notes on reading the statements.
+* Every theorem about a profile carries all four hypotheses `0 ≤ p0 … 0 ≤ p3` (the property's
+  domain) for uniformity; some proofs do not need all of them (`deviation_bounds`: `h2 h3`,
+  `zero_iff`: `h0 h1`, `hard_gt_20_iff`: `h0 h1 h2` are not referenced), which is why the
+  unused-variable linter is switched off above.  They restrict nothing beyond the domain.
+* The theorems of sections 2 and 3 need `0 < t`: the share of a category is undefined for the
+  empty profile; that case is covered by `all_zero` and `range_and_sum`.
+* `refactoring_iff`, `verdict_cases`, `verdict_shown`, `summary_colours` unfold the GENERATED
+  definitions `verdict_text` / `summary_*` (`Gen/Logic.lean`) - that is the intended tie: a changed
+  comparison in the source changes the generated term and breaks the proof.  That verdict code `2`
+  means "no refactoring necessary" (and `0` / `1` the two "refactoring necessary" sentences) is the
+  translator's classification of the three `console.print` branches (comment at the definition in
+  `Gen/Logic.lean`), checked against the printed text by the correspondence run.
+* Not claimed: equality of `CL.pct` with the IEEE-754 evaluation in CPython (DESIGN.md 8: they can
+  differ by one point at exact ties of the rounding formula; correspondence with tolerance).
 -/
 namespace CL.C19
 
